@@ -459,7 +459,7 @@ class ExprMixin:
             k = z3.Int(uid("ink"))
             return z3.Exists([k], z3.And(0 <= k, k < container.len, veq(container.elem(k), item)))
         if isinstance(container, VAbs):
-            return container.call_method("__contains__", [item], {}, st, self)[0][1].t
+            return self.truth(container.call_method("__contains__", [item], {}, st, self)[0][1], st)
         raise Unsupported("`in` on this container", node)
 
     def ev_IfExp(self, node, st):
